@@ -2,7 +2,7 @@
 from common import *  # noqa
 import dbtie
 
-PROFILE = {'scenario_pref': ['none_name', 'merge_rename', 'none_name', 'merge_rename', 'substring_names', 'substring_names', 'handle_unset', 'stale_handle', 'getter_memo', 'handle_sorted', 'far_sorted', 'handle_times'], 'p_write': 0.3, 'p_plain': 0.5, 'handle_writes': True, 'writes': {'insert': 3, 'insert_multiple': 1, 'remove': 1, 'drop': 1, 'remove_all': 0.3, 'update': 1, 'reindex': 0.5, 'reopen': 0.5, 'handle': 5}}
+PROFILE = {'scenario_pref': ['buffered_handle', 'none_name', 'merge_rename', 'odd_strings', 'substring_names', 'substring_names', 'handle_unset', 'stale_handle', 'getter_memo', 'handle_sorted', 'far_sorted', 'handle_times'], 'p_write': 0.3, 'p_plain': 0.5, 'handle_writes': True, 'writes': {'insert': 3, 'insert_multiple': 1, 'remove': 1, 'drop': 1, 'remove_all': 0.3, 'update': 1, 'reindex': 0.5, 'reopen': 0.5, 'handle': 5}}
 
 
 def main(tier, seed):
